@@ -370,7 +370,7 @@ func c05Extras(c *Check) {
 			bfCmp(CallSym(getVote, st), "!=", CallSym(getVote, prev)),
 			bfCmp(CallSym(getTerm, st), "!=", CallSym(getTerm, prev)))
 		for _, ret := range returnsOf(fi) {
-			code := fi.valueBF(ret.Results[0], 0)
+			code := fi.valueBF(fi.RetVal(ret, 0), 0)
 			ok, why := bfEquiv(code, spec)
 			c.Result(ok, "C05.M", "return of MustSync", fnName(mustSync), p.site(ret), "entsnum != 0 || vote changed || term changed", fmt.Sprintf("code: %s %s", code, why))
 		}
